@@ -529,6 +529,33 @@ def _kind_of(fi, e, depth=0):
     return None
 
 
+def r10_4_units(ctx, modules=("mbox", "client", "pop3_client", "search")):
+    """Generic unit-kind check (UID / SeqNum / Index / Key) over the modules that handle message numbers."""
+    from ..units import check_function
+
+    p = ctx.p
+    n_fn = 0
+    for fi in p.functions.values():
+        if fi.module not in modules:
+            continue
+        out, K = check_function(fi)
+        kinded = {k for k, v in K.scalar.items() if v} | {k for k, v in K.elem.items() if v}
+        if not kinded:
+            continue
+        n_fn += 1
+        ctx.analysed(fi)
+        for node, want, got, what in out:
+            ctx.bad(
+                "R10.4", fi.module, fi.qual, norm(node, 100),
+                f"a {got} is used where a {want} is expected ({what}): the operation addresses another message than the one its "
+                "argument denoted (the kinds coincide only while no message was ever expunged)",
+                node.lineno,
+            )
+        if not out:
+            ctx.ok("R10.4", where(fi), f"unit kinds consistent ({len(kinded)} kinded names: {', '.join(sorted(kinded)[:6])})")
+    ctx.floor("R10.4u", n_fn, 15 if len(modules) >= 4 else 3, "functions with inferred message-number kinds")
+
+
 # ----------------------------------------------------------------------------
 # MH.lock_folder() is not in the graph: it is re-entrant within the process (`if self._locked: yield`), a no-op when
 # file locking is disabled, and otherwise gives up after its 2 s timeout - it can delay but never block for ever.
@@ -746,6 +773,7 @@ def run(ctx):
     r10_2(ctx)
     r10_3(ctx)
     r10_4(ctx)
+    r10_4_units(ctx)
     r10_5(ctx)
     r10_7(ctx)
     for k, v in DISJOINT_EDGES.items():
